@@ -36,6 +36,24 @@ example : ∀ y, Feasible exP y → cost exP exX ≤ cost exP y + (1/10000) * in
     · exact Or.inl h
     · exact Or.inr (by linarith))
 
+/-- **How far an ε-KKT point can be from the optimum.** If `xs` is the exact optimum (with its
+    multipliers) and `x` satisfies the KKT conditions with multipliers `≥ -ε` — the fixed points
+    of a solver that splits only when `lm < -ε`, ε = 1e-4 in libvpsc — then
+    `Σ w_i (x_i - xs_i)^2 ≤ ε · Σ_{inequalities} slack_c(xs)`: an *absolute* ε bounds the
+    *weighted* distance, so small weights allow large deviations. -/
+theorem eps_kkt_distance (eps : Rat) (P : Problem) (hWF : WF P) (xs : Nat → Rat) (lams : List Rat)
+    (hs : KKT P xs lams) (x : Nat → Rat) (lam : List Rat) (h : KKTeps eps P x lam) :
+    sumTo P.n (fun i => P.w i * ((x i - xs i) * (x i - xs i))) ≤ eps * ineqSlackSum P xs :=
+  kktEps_distance eps P hWF xs lams hs x lam h
+
+example : sumTo 2 (fun i => exP.w i * ((exX i - exX i) * (exX i - exX i))) ≤ (1/10000) * ineqSlackSum exP exX :=
+  eps_kkt_distance (1/10000) exP ex_wf exX [1] ex_kkt exX [1] (by
+    obtain ⟨h1, h2, h3, h4⟩ := ex_kkt
+    refine ⟨h1, h2, h3, fun p hp => ⟨?_, (h4 p hp).2⟩⟩
+    rcases (h4 p hp).1 with h | h
+    · exact Or.inl h
+    · exact Or.inr (by linarith))
+
 /-- **Uniqueness.** Two optimal placements agree on every variable (strict convexity: `w > 0`). -/
 theorem kkt_unique (P : Problem) (hWF : WF P) (x y : Nat → Rat)
     (hx : IsOptimum P x) (hy : IsOptimum P y) : ∀ i, i < P.n → x i = y i :=
